@@ -326,7 +326,11 @@ func execStor(args []string) string {
 func genC08(g *G) {
 	pick := func(xs []string) string { return xs[g.Rnd.IntN(len(xs))] }
 	addrF := []string{"1.2.3.4", "::1", "fe80::1%e", "::ffff:1.2.3.4", "10.0.0.1", "256.1.1.1", "FE80::a"}
-	nameF := []string{"a", "A", "host.example", "HOST.example", "Host.Example", "b.c", "ex.123", "-a.b", "é.рф", "É.РФ", "a_b.c", "zulu.Z", "ZULU.z", "x\xffy.c", "İ.com", "i̇.com", "K.com", "k.com"}
+	nameF := []string{"a", "A", "host.example", "HOST.example", "Host.Example", "b.c", "ex.123", "-a.b", "é.рф", "É.РФ", "a_b.c", "zulu.Z", "ZULU.z", "x\xffy.c", "İ.com", "i̇.com", "K.com", "k.com",
+		// labels with the ACE prefix that do not decode (the name is invalid), in lower and upper case
+		"xn--0", "xn--0.example", "www.xn--99999999999.example", "host.xn--zz", "XN--0.example", "xn--a-b.c",
+		// names that are equal under Unicode case folding but not after lower-casing, and the other way round
+		"mass.example", "ma\u017fs.example", "\u03c3\u03c2.c", "\u03c3\u03c3.c", "\u03a3\u03a3.c", "\u0130zmir.example", "izmir.example", "IZMIR.example"}
 	seps := []string{" ", "\t", "  "}
 	terms := []string{"\n", "\r\n", "\n", "\n\n", "\r\r\n"}
 	mkLine := func() string {
